@@ -134,7 +134,7 @@ PROPS = {
         'assumptions': ['PARTIAL BY NATURE: proves the lifetime protocol the unsafe sites rely on (erased sync jobs never outlive their call, closures run at most once, nothing runs after the free operation); absence of undefined behaviour outside the protocol is not provable here; the same programs also run on REAL threads under AddressSanitizer (nightly toolchain; a use of the value, a job or a captured borrow after its release aborts with a report; OS scheduling, so this samples interleavings and is evidence, not proof); canary payloads (dead flag, drop counter, wrong-object check, concurrent-modification canary) are checked in every profile; '],
     },
     'C15': {
-        'coq': ['theories/Props/C15.vo', 'theories/Inst/C15_now.vo', 'theories/Inst/Wrapper_now.vo', 'theories/L1p/PropsL1p.vo', 'theories/L1p/PropsL1p2.vo', 'theories/L1p/PropsL1p3.vo', 'theories/L1p/PropsL1p4.vo', 'theories/L1p/PropsL1p5.vo', 'theories/L1p/PropsL1p6.vo'],
+        'coq': ['theories/Props/C15.vo', 'theories/Inst/C15_now.vo', 'theories/Inst/Wrapper_now.vo', 'theories/L1p/PropsL1p.vo', 'theories/L1p/PropsL1p2.vo', 'theories/L1p/PropsL1p3.vo', 'theories/L1p/PropsL1p4.vo', 'theories/L1p/PropsL1p5.vo', 'theories/L1p/PropsL1p6.vo', 'theories/L1p/PropsL1p7.vo'],
         'profiles': [prof('panic', (40, 2), (400, 4), real=True)],
         'monitors': ['C15', 'C03', 'C04', 'C07'], 'liveness': True, 'panics': True,
         'trusted_base': ['Panic/Absorb.v: the queue-state word under arbitrary sequences of table-driven events; L1p: the unwinding as ONE model step at a closure frame (queue Panicked, owner cleared, pool thread dead with its busy flag set) plus the reap pass, over the unmodified L1 step - safety theorems and the liveness half in the form "after the next scheduling call" (masking argument over L1\'s invariants); the unwinding is not interleaved with other actors in the model (on the crate it is: real-thread scenarios)'],
